@@ -185,3 +185,39 @@ package consensus
 //@   loop 1: invariant vsDistinct(vs)
 //@   loop 1: invariant forall d bseq :: cnt(store(vsM(vs), index, 0), d, vsN(vs)) >= 1 ==> (exists i int :: 0 <= i && i < len(vs.counters) && vsDg(vs, i) == d)
 //@   loop 1: invariant vs.count == cntnn(store(vsM(vs), index, 0), vsN(vs))
+
+// ---------------------------------------------------------------------------
+// C06 (detection path): dsmLog reports a pair only if it is a genuine conflict
+// ---------------------------------------------------------------------------
+
+//@ property C06
+// The message cache is abstracted: it only ever holds messages whose signature was verified
+// before they were logged (precondition of the put functions).
+//@ func (c *dsmLog) getVoteMessage(vt, addr, h, r) (m)
+//@   trusted
+//@   pure
+//@   ensures m != nil ==> sb_haskey(ref(m))
+//@ func (c *dsmLog) putVoteMessage(msg)
+//@   trusted
+//@   requires msg != nil && sb_haskey(ref(msg))
+//@   modifies msg.signedBase
+//@ func (c *dsmLog) getProposalMessage(addr, h, r) (m)
+//@   trusted
+//@   pure
+//@   ensures m != nil ==> sb_haskey(ref(m))
+//@ func (c *dsmLog) putProposalMessage(msg)
+//@   trusted
+//@   requires msg != nil && sb_haskey(ref(msg))
+//@   modifies msg.signedBase
+
+//@ func (c *dsmLog) LogAndCheckVoteMessage(msg) (r)
+//@   requires c != nil && msg != nil && sb_haskey(ref(msg))
+//@   modifies *
+//@   ensures [pair] len(r) != 0 ==> len(r) == 2 && typeof(r[0]) == typeid(ptr_dsVote) && typeof(r[1]) == typeid(ptr_dsVote)
+//@   ensures [genuine] len(r) != 0 ==> as(ptr_dsVote, r[1]).msg == msg && as(ptr_dsVote, r[0]).msg != nil && voteConflict(as(ptr_dsVote, r[0]).msg, msg)
+
+//@ func (c *dsmLog) LogAndCheckProposalMessage(msg) (r)
+//@   requires c != nil && msg != nil && sb_haskey(ref(msg))
+//@   modifies *
+//@   ensures [pair] len(r) != 0 ==> len(r) == 2 && typeof(r[0]) == typeid(ptr_dsProposal) && typeof(r[1]) == typeid(ptr_dsProposal)
+//@   ensures [genuine] len(r) != 0 ==> as(ptr_dsProposal, r[1]).msg == msg && as(ptr_dsProposal, r[0]).msg != nil && propConflict(as(ptr_dsProposal, r[0]).msg, msg)
